@@ -9,7 +9,7 @@ PROP = {
          'rejected for a missing parent are re-offered. Every fourth history lets 1..3 users register as candidates in the prefix (nodes configured for n+3 deputies), '
          'so that the term elected at the snapshot block has more deputies and a larger two-thirds threshold; the prefix then runs through the interim period and the tree lies '
          'in the new term. After every step the five invariants of the statement are checked against the harness\'s own record of the tree; the quorum '
-         'is recounted from the stored block by recovering every signature. distinct = (n, identity, prefix length, tree size, hostile); non-trivial = tree with siblings and >= 3 blocks Every eighth history lists more nodes in the genesis term record than the nodes\' configured deputy count: the nodes behind the cut sign confirms too and must not count.',
+         'is recounted from the stored block by recovering every signature. distinct = (n, identity, prefix length, tree size, hostile); non-trivial = tree with siblings and >= 3 blocks Every eighth history lists more nodes in the genesis term record than the nodes\' configured deputy count: the nodes behind the cut sign confirms too and must not count. In hostile histories one deputy\'s confirm is delivered as three concurrent packets (signature, high-s twin, signature again) while a yield site between verifying and saving a packet waits 0.5 ms.',
  'assumptions': ['ancestry is decided from the harness\'s own record of everything offered, never by asking the node'],
  'min_cases': {'quick': 250, 'thorough': 6000},
  'min_stats': {'quick': {'stable_advances': 200, 'quorums_checked': 200, 'confirm_packets': 1000, 'scenarios_with_more_deputies_in_the_new_term': 20}},
